@@ -83,12 +83,13 @@ Do(a) ==
             /\ res' = R("ok", <<>>, NoVal)
             /\ stack' = Front(stack) \o <<SubSeq(s, k + 1, n), SubSeq(s, 1, k)>>
 
+Huge == 1000000        \* stands for the largest depth / count the argument type admits (usize::MAX)
 Acts ==
   {A("push", p, NoVal) : p \in Pops}
   \cup {A(op, <<>>, NoVal) : op \in {"pop", "try_pop", "current", "get_current", "len", "is_empty"}}
   \cup {A(op, <<>>, t) : op \in {"current_mut", "get_current_mut"}, t \in Tags}
-  \cup {A(op, <<>>, d) : op \in {"peek", "try_peek"}, d \in 0..(H + 1)}
-  \cup {A(op, <<>>, n) : op \in {"rotate", "c_rotate"}, n \in 1..(H + 1)}   \* n = 0 is outside the statement
+  \cup {A(op, <<>>, d) : op \in {"peek", "try_peek"}, d \in 0..(H + 1) \cup {Huge}}
+  \cup {A(op, <<>>, n) : op \in {"rotate", "c_rotate"}, n \in 1..(H + 1) \cup {Huge}}   \* n = 0 is outside the statement
   \cup (IF H >= 1 THEN {A("c_clear", <<>>, NoVal), A("c_duplicate", <<>>, NoVal)} ELSE {})
   \cup (IF H >= 2 THEN {A("c_interleave", <<>>, NoVal)} ELSE {})
   \cup (IF H >= 1 /\ Len(Last(stack)) >= 2 THEN {A("c_split", <<>>, NoVal)} ELSE {})
